@@ -120,6 +120,11 @@ def check_unit(name, rlimit):
         msgs = [d.get('rendered') or d.get('message') for d in r['diags'] if d.get('level') == 'error'][:6]
         res.infra.append("verus VIR error (unsupported construct / ill-formed contract): " + '\n'.join(m for m in msgs if m))
         return res
+    rustc_errs = [d for d in r['diags'] if d.get('level') == 'error' and d.get('code')]
+    if rustc_errs:
+        msgs = [d.get('rendered') or d.get('message') for d in rustc_errs][:4]
+        res.infra.append("rustc error in the generated unit (unsupported construct, changed signature or ill-formed contract): " + '\n'.join(m for m in msgs if m))
+        return res
     res.verified = vr.get('verified', 0)
     res.errors = vr.get('errors', 0)
     try:
